@@ -41,6 +41,7 @@ func registerTimeIntrinsics() {
 	intrinsicTable["(time.Time).Equal"] = inTimeEqual
 	intrinsicTable["(time.Time).Zone"] = inTimeZone
 	intrinsicTable["(time.Time).Location"] = inTimeLocation
+	intrinsicTable["(time.Time).Format"] = inTimeFormat
 }
 
 func (r *Run) utcLoc() *Object {
@@ -126,6 +127,17 @@ func inTimeDate(r *Run, fn *ssa.Function, args []Value) Value {
 		days = ts.Const(64, uint64(daysToMonth(signExt(f[0].Val, 64), signExt(f[1].Val, 64))))
 	} else {
 		days = ts.Raw(64, "(verif_days $0 $1)", f[0], f[1])
+		// facts about the real function for ordinary dates (year 1..9999,
+		// month 1..12): 365 days per year at least, 366 at most, and at
+		// least 31 days before any month after January
+		y, m := f[0], f[1]
+		inRange := ts.And(ts.And(ts.SLE(ts.Const(64, 1), y), ts.SLE(y, ts.Const(64, 9999))), ts.And(ts.SLE(ts.Const(64, 1), m), ts.SLE(m, ts.Const(64, 12))))
+		ym1 := ts.Sub(y, ts.Const(64, 1))
+		lo := ts.Mul(ym1, ts.Const(64, 365))
+		lo2 := ts.Add(lo, ts.Const(64, 31))
+		hi := ts.Add(ts.Mul(ym1, ts.Const(64, 366)), ts.Const(64, 366))
+		r.assume(ts.Implies(inRange, ts.And(ts.SLE(lo, days), ts.SLE(days, hi))))
+		r.assume(ts.Implies(ts.And(inRange, ts.SLE(ts.Const(64, 2), m)), ts.SLE(lo2, days)))
 	}
 	carry, nsec := r.normNsec(f[6])
 	d := ts.Add(days, ts.Sub(f[2], ts.Const(64, 1)))
@@ -221,3 +233,14 @@ func inTimeLocation(r *Run, fn *ssa.Function, args []Value) Value {
 }
 
 var _ = types.Typ
+
+// Time.Format is not modelled; a harness binds the text of a time it built
+// (verifBindFormat) and Format returns that text. Natively the real Format runs.
+func inTimeFormat(r *Run, fn *ssa.Function, args []Value) Value {
+	w, e, _ := r.timeParts(args[0])
+	if s, ok := r.formats[[2]int{w.ID, e.ID}]; ok {
+		return s
+	}
+	r.engineFail("Time.Format of a time whose text form was not bound by the harness")
+	return nil
+}
